@@ -893,16 +893,10 @@ func R2Model(c *Ctx) {
 			if !consumed[bo.X] {
 				continue
 			}
-			for _, f := range FactsAt(b) {
-				cb, ok := f.Cond.(*ssa.BinOp)
-				if !ok || cb.Op != token.EQL || !f.Truth {
-					continue
-				}
-				if k, ok := ConstInt(cb.Y); ok {
-					if name, ok := rt[k]; ok {
-						if _, seen := got[name]; !seen {
-							got[name] = wv
-						}
+			for _, k := range caseKeysAt(b) {
+				if name, ok := rt[k]; ok {
+					if _, seen := got[name]; !seen {
+						got[name] = wv
 					}
 				}
 			}
@@ -957,4 +951,41 @@ func hasLenEqW(b *ssa.BasicBlock, w int64, wv func(ssa.Value) (int64, bool)) boo
 		}
 	}
 	return false
+}
+
+// caseKeysAt: the switch-case constants under which block b runs. A case body is entered from the true edge of
+// `tag == k`; a body shared by several labels (case A, B:) is entered from several such edges. b inherits the keys
+// of the nearest case body that dominates it (or is it).
+func caseKeysAt(b *ssa.BasicBlock) []int64 {
+	fn := b.Parent()
+	body := map[*ssa.BasicBlock][]int64{}
+	for _, blk := range fn.Blocks {
+		if len(blk.Instrs) == 0 {
+			continue
+		}
+		iff, ok := blk.Instrs[len(blk.Instrs)-1].(*ssa.If)
+		if !ok {
+			continue
+		}
+		bo, ok := iff.Cond.(*ssa.BinOp)
+		if !ok || bo.Op != token.EQL {
+			continue
+		}
+		k, isC := ConstInt(bo.Y)
+		if !isC {
+			continue
+		}
+		t := blk.Succs[0]
+		body[t] = append(body[t], k)
+	}
+	for d := b; d != nil; d = d.Idom() {
+		if ks, ok := body[d]; ok {
+			// every predecessor of the body must be such a case edge (otherwise it is also reachable otherwise)
+			if len(ks) == len(d.Preds) {
+				return ks
+			}
+			return nil
+		}
+	}
+	return nil
 }
